@@ -231,6 +231,12 @@ func (e *Engine) VerifyFunc(name string, opts UnitOpts) (u *Unit, err error) {
 	u.coverCheck(st, "requires")
 	f.run(st)
 	for _, a := range ct.Asserts {
+		if !f.usedAnchors[a.Anchor] && !strings.HasSuffix(a.Anchor, "#*") && strings.HasPrefix(a.Label, "must-") && !a.Assume {
+			// a "must-" clause is also the obligation that its anchor exists: the function has to make that
+			// call (e.g. wake all waiting readers); a missing call is a failed obligation, not an engine error
+			u.oblige(st, "assert-noassume", a.Anchor+"/"+a.Label, tFalse, "the contract requires the "+a.Anchor+" to occur in "+name+"; it does not")
+			continue
+		}
 		if !f.usedAnchors[a.Anchor] && !strings.HasSuffix(a.Anchor, "#*") {
 			return nil, fmt.Errorf("%s: anchor %q of an assert@/assume@ clause was not found", name, a.Anchor)
 		}
